@@ -8,7 +8,7 @@
    data prefix byte-identical; the reader locates that footer.  The thrift content of the footer
    (schema, row groups) is C10's round trip; here the footer is an opaque byte string.            *)
 From Coq Require Import NArith Arith List Bool.
-From Pq Require Import Base.Bytes Impl.KV Proofs.KVProofs Impl.KVRead Proofs.KVReadProofs Impl.ParseHeader Proofs.ParseHeaderProofs.
+From Pq Require Import Base.Bytes Impl.KV Proofs.KVProofs Impl.KVRead Proofs.KVReadProofs Impl.ParseHeader Proofs.ParseHeaderProofs Impl.PyList Proofs.KVFoldProofs.
 Import ListNotations.
 
 Theorem C16_kv_spec :
@@ -108,6 +108,16 @@ Theorem C16_reader_finds_last_footer : forall data footer (fs : list bytes) veri
   = Some (last fs footer, N.of_nat (length (last fs footer))).
 Proof. exact parse_header_after_rewrites. Qed.
 Print Assumptions C16_reader_finds_last_footer.
+
+(* the FAITHFUL loop of update_custom_metadata (position looked up in the spare key list `kvm_keys`, which lags behind after an
+   append) computes update_kv for EVERY update list with distinct keys; genproofs/GenKVProofs.v proves on every run that the
+   regenerated source IS this loop (gen_kv_function_is_model) *)
+Theorem C16_faithful_loop_is_update_kv :
+  forall (K V : Type) (keqb : K -> K -> bool), (forall a b, reflect (a = b) (keqb a b)) ->
+  forall (u : list (K * option V)) (kvm : list (K * V)), NoDup (map fst u) ->
+    option_map fst (fold_left (kstep K V keqb) u (Some (kvm, map fst kvm))) = Some (update_kv keqb kvm u).
+Proof. exact fold_update1_keys_start. Qed.
+Print Assumptions C16_faithful_loop_is_update_kv.
 
 Example C16_read_nonvacuous :
   (* 'sha256' -> non-UTF-8 digest: text key, binary value; a value-less entry; an overlong / surrogate / truncated form *)
